@@ -47,9 +47,16 @@ def apply(obj, ev: dict):
                 "strided": lambda o: np.array(o, dtype=np.int16), "grown": lambda o: np.array(o, dtype=np.uint32)}[bind.get_layout()]
         return obj.permute(form(a["order"]))
     if op == "reshape":
+        # the spelling of the target shape is a presentation (rotated with the array layout): tuple, list, integer array,
+        # and - for a single new mode - the bare integer
+        import bind
+        sh = [int(x) for x in a["shape"]]
+        lay = bind.get_layout()
+        target = {"default": tuple(sh), "swapped": list(sh), "strided": np.array(sh, dtype=np.int64),
+                  "grown": (sh[0] if len(sh) == 1 else tuple(np.int64(x) for x in sh))}[lay] if sh else tuple(sh)
         if a["all"]:
-            return obj.reshape(tuple(a["shape"]))
-        return obj.reshape(tuple(a["shape"]), np.array(a["old"], dtype=int))
+            return obj.reshape(target)
+        return obj.reshape(target, np.array(a["old"], dtype=int))
     if op == "squeeze":
         return obj.squeeze()
     raise ValueError(op)
